@@ -42,6 +42,9 @@ def gen_ops(rng, n, unix, buffered, cap):
         if r < 0.25 and buffered:
             ops.append("F")
             continue
+        if r < 0.33:
+            ops.append("s")           # the statistics are read in the middle of the history
+            continue
         kind = rng.choice(["norm", "norm", "short", "utf8", "edge", "big" if rng.random() < 0.3 else "norm"])
         m = metric(rng, j, kind)
         if buffered and cap is not None and rng.random() < 0.3:
@@ -98,6 +101,7 @@ def gen_cases(rng, n):
     for spec in ("u 40 30", "u 120 700", "16 80 10", "64 160 20", "512 400 90"):
         cases.append("XW " + spec)
     cases += ur_cases()
+    cases += stats_sample_cases(rng, max(10, n // 10))
     for _ in range(n):
         fam = rng.choice(["U", "X", "BU", "BX", "BU", "BX", "US", "UT", "BUS", "BUT"])
         q = "q1" if rng.random() < 0.25 else "q0"
@@ -111,7 +115,41 @@ def gen_cases(rng, n):
     return cases
 
 
+def without_samples(case):
+    """`s` (read the statistics) is not an operation of the model: reading must change nothing, so the model runs the
+    history with, in its place, the listener command that is a no-op in the current state (same `-` result)"""
+    t = case.split()
+    if len(t) != 4 or "s" not in t[3].split(","):
+        return case
+    up, ops = True, []
+    for o in t[3].split(","):
+        if o == "l":
+            up = False
+        elif o == "L":
+            up = True
+        ops.append(("L" if up else "l") if o == "s" else o)
+    return " ".join(t[:3] + [",".join(ops)])
+
+
+def stats_sample_cases(rng, n):
+    """buffered sinks whose statistics are read while lines are buffered (C19: reading is not an occasion to write)"""
+    cases = []
+    a, b, c = "E" + hx(b"aa:1|c"), "E" + hx(b"bbbb:22|g"), "E" + hx(b"c:3|ms")
+    for fam in ("BX", "BU"):
+        for cap in ("d", "16", "24", "64"):
+            for q in ("q0", "q1"):
+                cases.append("%s %s %s %s" % (fam, cap, q, ",".join([a, "s", b, "s", c, "s", a, b, "s", "F", "s", c, "s"])))
+    for _ in range(n):
+        fam = rng.choice(["BX", "BU", "BUS", "BUT"])
+        cap = rng.choice(["d", "16", "64", "512"])
+        ops = gen_ops(rng, rng.choice([4, 10, 25]), fam == "BX", True, 512 if cap == "d" else int(cap)).split(",")
+        ops = [x for o in ops for x in ((o, "s") if o[0] == "E" and rng.random() < 0.5 else (o,))]
+        cases.append("%s %s %s %s" % (fam, cap, "q1" if rng.random() < 0.2 else "q0", ",".join(ops)))
+    return cases
+
+
 def xw_as_model_case(case, obs):
+    case = without_samples(case)
     t = case.split()
     if t[0] in ("XS", "BXS"):
         ops = ",".join(o for o in t[3].split(",") if o != "m")
@@ -284,6 +322,24 @@ def judge(case, obs):
     st = [int(x) for x in parts["S"].split(".")]
     ops = [] if t[-1] == "-" else t[-1].split(",")
     queued = len(t) > 2 and t[2] == "q1"
+    if parts.get("T") and parts.get("N"):
+        # statistics read in the middle of the history: they are the figures of the datagrams that have reached the
+        # listener so far, and reading them puts nothing on the wire
+        seen = [int(x) for x in parts["N"].split(",")]
+        samples = [[int(x) for x in y.split(".")] for y in parts["T"].split(";")]
+        k = 0
+        for j, op in enumerate(ops):
+            if op != "s" or j >= len(seen) or k >= len(samples):
+                continue
+            sm = samples[k]
+            k += 1
+            before = seen[j - 1] if j else 0
+            if seen[j] != before:
+                for pid in ("C19", "C13"):
+                    bad.append((pid, "reading the statistics (op %d) put %d datagram(s) on the wire" % (j, seen[j] - before)))
+            elif sm[1] != seen[j] or sm[0] != sum(len(d) for d in dg[:seen[j]]):
+                bad.append(("C14", "statistics read at op %d are %s; %d datagrams / %d bytes had reached the listener" % (
+                    j, sm, seen[j], sum(len(d) for d in dg[:seen[j]]))))
     if t[0] in ("U", "X", "UA", "US", "UT"):
         # one datagram per accepted emit, payload exactly the metric, in order; figures = counts/lengths of Ok/Err emits
         want_dg, ok_b, ok_n, er_b, er_n = [], 0, 0, 0, 0
@@ -389,7 +445,7 @@ def run_sock_check(prop, tier, seed):
         # XW: which sends the OS refuses is not the model's to predict; the unbuffered ones are replayed in the model
         # with the observed refusals as the fault script (listener down around every refused emit)
         raw = list(impl)
-        impl = [re.sub(r"\|N:[0-9,]*", "", o) for o in impl]       # per-op receive counts: judged, not modelled
+        impl = [re.sub(r"\|N:[0-9,]*(\|T:[0-9.;]*)?", "", o) for o in impl]       # per-op receive counts and mid-history samples: judged, not modelled
         mcases = [xw_as_model_case(c, o) for c, o in zip(cases, impl)]
         model = common.run_model("sock", mcases)
         common.kernel_crosscheck(rep, "sock", mcases, 150 if thorough else 60)
